@@ -118,7 +118,42 @@ def extra_vectors(name, rng, n=6):
         return [b'expires=' + d + b'; max-age=1; Path=/' for d in imf_dates(rng, n)]
     if short == 'HttpHeaderFieldValueSetCookie':
         return [b'sid=31d4; expires=' + d + b'; Secure' for d in imf_dates(rng, n)]
+    if short == 'DnsRecordTxtValueSpf':
+        return [b'v=spf1 ' + b' '.join(spf_terms(rng)) for _ in range(n)]
+    if short in ('DnsRecordTxtValueSpfDirectiveA', 'DnsRecordTxtValueSpfDirectiveMx'):
+        mech = b'a' if short.endswith('A') else b'mx'
+        return [rng.choice([b'', b'+', b'-', b'~', b'?']) + mech + rng.choice([b'', b':example.com']) + spf_cidr(rng) for _ in range(n)]
     return []
+
+
+def spf_cidr(rng):
+    """Optional prefix lengths in the form the library writes them (/v4 then /v6), boundary values included."""
+    v4 = rng.choice([None, None, 0, 1, 8, 24, 31, 32])
+    v6 = rng.choice([None, None, 0, 1, 64, 127, 128])
+    return (b'' if v4 is None else b'/%d' % v4) + (b'' if v6 is None or v4 is None else b'/%d' % v6)
+
+
+def spf_terms(rng):
+    terms = []
+    for _ in range(rng.randint(1, 5)):
+        q = rng.choice([b'', b'', b'+', b'-', b'~', b'?'])
+        k = rng.randrange(7)
+        if k == 0:
+            terms.append(q + b'a' + rng.choice([b'', b':example.com']) + spf_cidr(rng))
+        elif k == 1:
+            terms.append(q + b'mx' + rng.choice([b'', b':mail.example.com']) + spf_cidr(rng))
+        elif k == 2:
+            terms.append(q + b'ip4:' + rng.choice([b'192.0.2.0/24', b'198.51.100.7', b'0.0.0.0/0', b'10.0.0.0/8']))
+        elif k == 3:
+            terms.append(q + b'ip6:' + rng.choice([b'2001:db8::/32', b'::1', b'::/0']))
+        elif k == 4:
+            terms.append(q + b'include:_spf.example.com')
+        elif k == 5:
+            terms.append(q + rng.choice([b'ptr', b'ptr:example.com', b'exists:%{ir}._spf.%{d}']))
+        else:
+            terms.append(rng.choice([b'x-unknown=1', b'moo=']))
+    terms.append(rng.choice([b'-all', b'~all', b'?all', b'redirect=_spf.example.net', b'all exp=explain.example.com']))
+    return terms
 
 
 def class_sweep(chk, rng, per_vector):
